@@ -451,6 +451,20 @@ def run_harness(h: Harness, seed=0, tier="quick", shard=None):
                                     break
                     rec["replay"] = rp
                     rec["model"] = {k: str(v) for k, v in res["model"].items() if "!" not in k}
+                if not rec["replay"].get("confirmed") and getattr(h, "sample_on_spurious", False) and kindc != "raw":
+                    # modular (cut) harnesses: the solver's witness fixes the cut symbols, which the real inputs of the
+                    # replay do not determine; look for real inputs on which the real code violates the same claim
+                    names_ = sorted(set(val_vars([v for row in in_vals for v in row])) | set(val_vars(_collect_vals(aux))))
+                    for _try in range(24):
+                        fake = {n: Fraction(rng.choice([-1, 1]) * rng.randint(20, 190), 100) for n in names_ if "!" not in n}
+                        try:
+                            rp = replay(h, f_real, in_vals, aux, None, label, fake, ctx)
+                        except Exception:
+                            continue
+                        if rp.get("confirmed") and rp.get("diff") == rp.get("diff"):
+                            rp["note"] = "the solver's witness lives on the cut symbols; violating real input found by sampling and confirmed on the real code"
+                            rec["replay"] = rp
+                            break
                 if not rec["replay"].get("confirmed"):
                     rec["status"] = "spurious"
             elif res["status"] == "unknown":
